@@ -28,7 +28,7 @@ struct SchedParams {
     int victim = 0, victim_op = -1, runner = 0; uint32_t offset = 0;
 };
 
-struct RunStats { uint64_t events = 0, preemptions = 0, switches = 0, accesses = 0, sync_ops = 0; bool deadlock = false; };
+struct RunStats { uint64_t events = 0, preemptions = 0, switches = 0, accesses = 0, sync_ops = 0, libc_state_reads = 0, libc_state_writes = 0; bool deadlock = false; };
 
 // ---- run control (called by the harness on the main thread)
 void rt_begin_run(int nthreads, const SchedParams &sp);
